@@ -1056,4 +1056,47 @@ theorem stmtTarget_node (sess : Sess V) (op : SOp V) (h : NodeSOp op) : stmtTarg
 
 end Node
 
+section Latest
+variable {V : Type} [JVal V]
+
+/-- an event that leaves key `k` of connection `c` alone: it concerns another connection, or is
+a forward notice, or is a write whose payload does not mention `k` -/
+def Ev.keeps (c : Conn) (k : Key) : Ev V → Prop
+  | .opened c' => c' ≠ c
+  | .closed c' => c' ≠ c
+  | .write c' kvs => c' ≠ c ∨ k ∉ keys kvs
+  | .fwd _ _ _ _ _ => True
+
+theorem replay_keeps_key (c : Conn) (k : Key) (m : AL V) (evs : List (Ev V)) (h : ∀ e ∈ evs, e.keeps c k) :
+    ∃ m', replay c (some m) evs = some m' ∧ lget m' k = lget m k := by
+  induction evs generalizing m with
+  | nil => exact ⟨m, rfl, rfl⟩
+  | cons e evs ih =>
+    have he := h e (by simp)
+    have hrest : ∀ e' ∈ evs, e'.keeps c k := fun e' he' => h e' (by simp [he'])
+    rw [replay_cons]
+    cases e with
+    | opened c' =>
+      have : c' ≠ c := he
+      simp only [applyEv, this, if_false]
+      exact ih m hrest
+    | closed c' =>
+      have : c' ≠ c := he
+      simp only [applyEv, this, if_false]
+      exact ih m hrest
+    | fwd => exact ih m hrest
+    | write c' kvs =>
+      by_cases hc : c' = c
+      · have hk : k ∉ keys kvs := by
+          cases he with
+          | inl h => exact absurd hc h
+          | inr h => exact h
+        simp only [applyEv, hc, if_true, Option.map_some]
+        obtain ⟨m', h1, h2⟩ := ih (amerge m kvs) hrest
+        exact ⟨m', h1, by rw [h2, lget_amerge_of_not_mem _ _ hk]⟩
+      · simp only [applyEv, hc, if_false]
+        exact ih m hrest
+
+end Latest
+
 end Cell2v.SessionData
